@@ -249,6 +249,15 @@ func c02Violators() []violator {
 			return true
 		})
 	}
+	// no payload block at all: the last block keeps number 1 but is of another type
+	add("payload-block-retyped", func(t *ref.Node) bool {
+		_, b := blkOf(t, ref.TPayload)
+		if b == nil {
+			return false
+		}
+		b.Kids[0].Val = 200
+		return true
+	})
 	add("hopcount-0-limit-1-count", func(t *ref.Node) bool {
 		_, b := blkOf(t, ref.THopCount)
 		if b == nil || len(b.Kids[4].Inner) == 0 {
